@@ -403,6 +403,19 @@ def load_config_obligation(P):
             req_ob("R-YAML", site, "load_config returns parse_config_dict of exactly the loaded mapping", ok_ret and not mutated)]
 
 
+def interface_memo_obligations(P):
+    """keyed stores into module-level or closure state anywhere below the public drivers: the stored value may depend only on
+    what the key depends on (otherwise one tower / step is answered with another's intermediate result)"""
+    import props_state as ps
+
+    m = P.module("bldfm.interface")
+    roots = [(m, m.functions[n], None) for n in ("run_bldfm_single", "run_bldfm_timeseries", "run_bldfm_multitower", "run_bldfm_parallel") if n in m.functions]
+    G = ps.CallGraph(P, roots)
+    obs = ps.memo_obligations(P, G)
+    obs.append(req_ob("R-MEMO", "src/bldfm/interface.py::run_bldfm_single (call graph)", "every keyed store into module-level or closure state below the drivers was examined (%d functions, %d stores)" % (len(G.order), len(obs)), True))
+    return obs
+
+
 def check_C13(P, tier):
     R = Result("C13", tier)
     R.min_obligations = 300
@@ -421,6 +434,7 @@ def check_C13(P, tier):
     R.add(consumed_obligations(P))
     R.add(load_config_obligation(P))
     R.add(scratch_memo_obligations(P))
+    R.add(interface_memo_obligations(P))
     R.analysed = {"files": ["src/bldfm/interface.py", "src/bldfm/config_parser.py", "src/bldfm/utils.py", "src/bldfm/pbl_model.py", "src/bldfm/solver.py"],
                   "functions": ["run_bldfm_single", "MetConfig.get_step", "_parse_*", "load_config", "parse_config_dict"], "paths": 72}
     return R, "access-path wiring table by abstract interpretation with stubbed stages; sibling default tables"
